@@ -1294,7 +1294,14 @@ func (fr *Frame) loopGhostMods(h int) map[string]bool {
 			case *ssa.Store:
 				ks, _ := fx.eng.keyOfAddr(x.Addr)
 				for k := range ks {
-					events = append(events, "store:"+k)
+					events = append(events, "store:"+k, "setfield:"+k)
+				}
+				if fa, ok := x.Addr.(*ssa.FieldAddr); ok {
+					if pt, ok := fa.X.Type().Underlying().(*types.Pointer); ok {
+						if stT, ok := pt.Elem().Underlying().(*types.Struct); ok {
+							events = append(events, "setfield:"+fieldKey(pt.Elem(), stT.Field(fa.Field).Name()))
+						}
+					}
 				}
 			}
 		}
